@@ -36,7 +36,7 @@ REQUIRED_BUCKETS = ["params:ctor-window", "params:top-level", "params:nested", "
                     "params:not-declared", "params:window", "draw:plain", "draw:lattice", "window:before", "window:inside",
                     "window:after", "window:tb=te", "obst:static", "obst:dyn-none", "obst:dyn-traj", "obst:dyn-set",
                     "obst:phantom", "obst:env", "obst:uncertain-init", "lanelets:all", "lanelets:subset", "lanelets:none-selected",
-                    "problems:filtered", "raster", "set-based-later-steps", "hidden-by-guard", "icon", "history"]
+                    "problems:filtered", "raster", "renderer-reused", "set-based-later-steps", "hidden-by-guard", "icon", "history"]
 WORKERS = {"quick": 1, "thorough": 8}
 
 PRIV = "_BaseParam__initialized"
@@ -436,7 +436,7 @@ def gen_draw_case(ctx):
         sets = [s for s in sets if s[1] not in ("time_begin", "time_end")]
         kw = {"time_begin": {"v": tb}, "time_end": {"v": te}}
     spec["params"] = {"root": "MPDrawParams", "kw": kw, "sets": sets}
-    spec.update({"kind": "draw", "mode": mode, "tb": tb, "te": te, "raster": r.random() < 0.4})
+    spec.update({"kind": "draw", "mode": mode, "tb": tb, "te": te, "raster": r.random() < 0.4, "reuse": r.random() < 0.25})
     return spec
 
 
@@ -608,6 +608,18 @@ def run_draw_case(ctx, case, model=True):
         ctx.tag("window:tb=te")
     # ------------------------------------------------------------------ draw (scenario), observe, draw (problems), render
     rnd = MPRenderer(ax=ax)
+    if case.get("reuse"):
+        # the same renderer has already drawn and rendered another time step (as create_video does frame by frame)
+        ctx.tag("renderer-reused")
+        try:
+            p0 = B.mk_params(case["params"])
+            p0.time_begin = tb + 1
+            p0.time_end = te + 1
+            sc.draw(rnd, p0)
+            pps.draw(rnd, p0)
+            rnd.render()
+        except Exception as e:  # noqa
+            return fail_exc(ctx, "draw+render(previous frame)", e, case)
     try:
         sc.draw(rnd, p)
     except Exception as e:  # noqa
